@@ -58,6 +58,8 @@ const ABC: [&str; 3] = ["a", "b", "c"];
 #[test] fn nb_peg_predmut() { sweep("nb_peg_predmut", &ABC, 6, |s| cmp::<GPredMut<'_>, XPredMut>(s)); }
 #[test] fn nb_peg_repminfail() { sweep("nb_peg_repminfail", &ABC, 8, |s| cmp::<GRepMinFail<'_>, XRepMinFail>(s)); }
 #[test] fn nb_peg_repmmfail() { sweep("nb_peg_repmmfail", &ABC, 8, |s| cmp::<GRepMMFail<'_>, XRepMMFail>(s)); }
+#[test] fn nb_peg_repnoprogress() { sweep("nb_peg_repnoprogress", &ABC, 7, |s| cmp::<GRepNoProgress<'_>, XRepNoProgress>(s)); }
+#[test] fn nb_peg_repnullable() { sweep("nb_peg_repnullable", &ABC, 7, |s| cmp::<GRepNullable<'_>, XRepNullable>(s)); }
 #[test] fn nb_peg_nest() { sweep("nb_peg_nest", &AB_, 8, |s| cmp::<GNest, XNest>(s)); }
 
 // ---- C17: repetition iterators yield the iterations in input order ------------------------------------------------
